@@ -299,3 +299,17 @@ keep("V09", ALL, [("grids.py", "if valid_start_type and valid_stop_type and star
 
 keep("V02", ALL, kind="rename_locals", why="every local variable of every module-level function renamed (x -> x_r)")
 keep("V11", ALL, kind="strip_docs", why="docstrings stripped and source regenerated with ast.unparse")
+
+# ------------------------------------------------------------------------------ R10
+brk("S01", ["C01", "C09"], "model_functions.py", "            kwargs = all_as_kwargs(args, kwargs, arg_names=arg_names)\n\n            states = {k: v for k, v in kwargs.items() if k in state_variables}\n            choices = {k: v for k, v in kwargs.items() if k in choice_variables}\n\n            u, f = current_u_and_f(",
+    "            kwargs = all_as_kwargs(args, kwargs, arg_names=sorted(arg_names))\n\n            states = {k: v for k, v in kwargs.items() if k in state_variables}\n            choices = {k: v for k, v in kwargs.items() if k in choice_variables}\n\n            u, f = current_u_and_f(",
+    "all_as_kwargs with another list than the signature's")
+brk("S02", ["C12", "C01"], "model_functions.py", 'arg for arg in arg_names if not arg.startswith("next_")', 'arg for arg in arg_names if "next_" not in arg',
+    "substring filter (D9 re-introduced)")
+brk("S03", ["C01"], "model_functions.py", "states = {k: v for k, v in kwargs.items() if k in state_variables}\n            choices = {k: v for k, v in kwargs.items() if k in choice_variables}\n\n            u, f",
+    "states = {k: v for k, v in kwargs.items() if k not in choice_variables}\n            choices = {k: v for k, v in kwargs.items() if k in choice_variables}\n\n            u, f",
+    "states selected by exclusion (includes vf_arr, params, indexers)")
+brk("S04", ["C01", "C12"], "solve_brute.py", "            state_indexers=state_indexers[period],\n            params=params,\n        )",
+    "            state_indexers=state_indexers[period],\n        )", "params not passed to the continuous problem")
+brk("S05", ["C02", "C12"], "simulate.py", "        data_scs, data_choice_segments = create_data_scs(\n            states=states,\n            model=model,\n            period=period,\n        )",
+    "        data_scs, data_choice_segments = create_data_scs(\n            states=states,\n            model=model,\n        )", "period not passed to create_data_scs")
